@@ -261,9 +261,34 @@ impl HtlcSpec {
     }
 
     /// The JSON lightningd would send for this HTLC (used by engine E and the serde entry tests).
+    /// The onion records in wire order (record 16 = payment metadata included).
+    pub fn records(&self) -> Vec<(u64, Vec<u8>)> {
+        let mut recs = self.extra_records.clone();
+        if let Some(m) = &self.metadata {
+            recs.push((16, m.clone()));
+        }
+        recs.sort_by_key(|r| r.0);
+        recs
+    }
+
+    /// The request as the plugin really receives it: lightningd's JSON (payload bytes written by the independent
+    /// reference encoder) through the plugin's own serde entry, i.e. through its TLV *decoder*. Falls back to the
+    /// directly built struct if that entry refuses the JSON (the serde entry itself is engine I's subject).
+    pub fn wire_request(&self, height: u32) -> HtlcAcceptedRequest {
+        match serde_json::from_value::<HtlcAcceptedRequest>(self.request_json(height)) {
+            Ok(r) => r,
+            Err(_) => self.request(height),
+        }
+    }
+
     pub fn request_json(&self, height: u32) -> serde_json::Value {
         let req = self.request(height);
-        let payload = SerializedTlvStream::to_bytes(req.onion.payload.clone());
+        let mut payload = Vec::new();
+        for (t, v) in self.records() {
+            put_bigsize(&mut payload, t);
+            put_bigsize(&mut payload, v.len() as u64);
+            payload.extend_from_slice(&v);
+        }
         let mut framed = Vec::new();
         put_bigsize(&mut framed, payload.len() as u64);
         framed.extend_from_slice(&payload);
